@@ -79,7 +79,8 @@ fn pipe_case(case: &Value) -> Value {
                 .filter(|i| i["mod"] == "" && (i["kind"] == "struct" || i["kind"] == "enum"))
                 .map(|i| {
                     json!({"kind": i["kind"], "name": i["name"], "serde": i["serde"],
-                           "fields": i.get("fields").cloned().unwrap_or(Value::Null)})
+                           "fields": i.get("fields").cloned().unwrap_or(Value::Null),
+                           "variants": i.get("variants").cloned().unwrap_or(Value::Null)})
                 })
                 .collect();
             out["items"] = json!(keep);
